@@ -175,8 +175,9 @@ CLAIMED = {
              "identity is checked with `is` on the real graph.",
         design="§7 C17", technique="Lean 4 proof (fold invariants) + corruption-sweep correspondence check"),
     "C09": dict(
-        text="PARTIAL (regime). Proved (Lean mirror of every to_xml / from_xml over abstract XML trees, hypotheses: CPython's "
-             "str/int/float printing and parsing round-trip): definition_roundtrip - for every definition in the regime DefWF, "
+        text="PARTIAL (regime). Proved (Lean mirror of every to_xml / from_xml over abstract XML trees; one hypothesis: a float "
+             "printed by str is read back by float as the same value - the integer counterpart int(str(i)) == i is a theorem "
+             "about the model's printer and parser, intRoundTrip / readInt_repr): definition_roundtrip(_main) - for every definition in the regime DefWF, "
              "loadXtce (toXml d) = d: parameter types (class, unit, encoding with default and context calibrators, criteria in "
              "all three forms nested to any depth, length specification with adjustment, integer enumerations), parameters "
              "(type reference, descriptions), containers (entry order, base container, restriction criteria, abstract flag, "
